@@ -137,7 +137,7 @@ theorem spawn_after (c : Cfg) (e : Nat) (s : Sup) (h : Established c e s)
   simp only at hidle hq hopen hup ha
   subst hidle hq hopen
   rcases ha with ha | ⟨ha, hst⟩ <;> subst ha <;>
-    simp_all [run, step, step?, inject, setSup, teardown, phaseOf, setPhase, supSt]
+    simp_all [run, step, step?, inject, injectOk, eventsCap, setSup, teardown, phaseOf, setPhase, supSt]
 
 theorem redial_after (c : Cfg) (e : Nat) (s : Sup) (h : Established c e s)
     (a : Act) (ha : a = .envDown ∨ (a = .envT7 ∧ s.st = .ns)) :
@@ -152,7 +152,7 @@ theorem redial_after (c : Cfg) (e : Nat) (s : Sup) (h : Established c e s)
   have he : e < c.epochs.length := by
     have := hlive; rw [List.getElem?_eq_some_iff] at this; exact this.1
   cases hact : c.active <;> rcases ha with ha | ⟨ha, hst⟩ <;> subst ha <;>
-    simp_all [run, step, step?, inject, setSup, teardown, phaseOf, setPhase, supSt, recoverySchedule,
+    simp_all [run, step, step?, inject, injectOk, eventsCap, setSup, teardown, phaseOf, setPhase, supSt, recoverySchedule,
       isDone, setLoop, modify_concat_length, stale, register, commitConnected]
 
 /-! ## Closed configurations (C10) -/
@@ -787,388 +787,5 @@ theorem closed_of_inv (c : Cfg) (h : Inv c) (hapi : c.api = .idle) (hsd : c.shut
     | some e =>
       obtain ⟨ep, hep, hpub⟩ := h.R1 e hc
       exact ⟨e, ep, rfl, hep, hpub⟩
-
-/-! ## Second invariant: what Close's waits rely on; no deadlock in Close (C10) -/
-
-/-- api positions in which the supervisor of this Open cycle must still be fully alive and un-closed -/
-def apiOpenish (api : ApiPc) (sd : Bool) : Bool :=
-  match api with
-  | .idle => !sd
-  | .openWaitSel _ | .closeReq _ | .openStart _ _ | .openColdWait _ => true
-  | _ => false
-
-/-- the supervisor is somewhere inside the processing of evClose -/
-def closingPc : RunPc → Bool
-  | .reactCheck true | .reactSpawn _ true | .reactTeardown _ true | .closeTeardown => true
-  | _ => false
-
-/-- Second invariant: what Close's (and a rolled-back Open's) waits rely on. -/
-structure Inv2 (c : Cfg) : Prop where
-  Q : ∀ (i : Nat) (l : Loop), c.loops[i]? = some l → Pub c l.prev
-  P2 : ∀ s, c.sup = some s → s.pc = .exited → s.stopReq = true
-  P5 : apiOpenish c.api c.shutdown = true → ∀ s, c.sup = some s →
-        s.closed = false ∧ Ev.close ∉ s.queue ∧ s.stopReq = false
-  P3 : (c.api = .closeJoinSup ∨ c.api = .openRollbackSup) → ∀ s, c.sup = some s → s.stopReq = true
-  P : ∀ e, (c.api = .closeWaitEpoch e ∨ c.api = .openRollbackWait e) → phaseOf c e = .live →
-        ∃ s, c.sup = some s ∧ s.closeEpoch = some e ∧ s.stopReq = false ∧
-          (closingPc s.pc = true ∨ (s.closed = false ∧ Ev.close ∈ s.queue))
-
-theorem inv2_init (a : Bool) : Inv2 (init a) := by
-  constructor <;> simp [init, apiOpenish]
-
-macro "inv2_frame" h:ident : tactic =>
-  `(tactic| (constructor <;> (first | exact ($h).Q | exact ($h).P2 | exact ($h).P5 | exact ($h).P3 | exact ($h).P | skip)))
-
-macro "inv2_fin" h:ident h2:ident : tactic =>
-  `(tactic| (obtain ⟨E1, E2, R1, R2, R3a, R3b, R4a, R4b, R5a, R5b, S1, S2a, S2b, S2c, S3, S4, S5, S6a, S6b, S6c, G1, G2, U, L1a, L1b, L1c, A1, A4, A5a, A5b, O2⟩ := $h
-             obtain ⟨Q, P2, P5, P3, P⟩ := $h2
-             (try simp only [Pub, CurDone, AllPubDone, NoLive, supSt, phaseOf, isDone, setPhase_epochs, setPhase_cur, setPhase_sup, setPhase_loops, setPhase_tr, setPhase_api, setPhase_shutdown, setPhase_gen, setPhase_active,
-               teardown_epochs, teardown_cur, teardown_sup, teardown_loops, teardown_tr, teardown_api, teardown_shutdown, teardown_gen, teardown_active,
-               setLoop_epochs, setLoop_cur, setLoop_sup, setLoop_loops, setLoop_tr, setLoop_api, setLoop_shutdown, setLoop_gen, setLoop_active,
-               setSup_epochs, setSup_cur, setSup_sup, setSup_loops, setSup_tr, setSup_api, setSup_shutdown, setSup_gen, setSup_active,
-               inject_epochs, inject_cur, inject_sup, inject_loops, inject_tr, inject_api, inject_shutdown, inject_gen, inject_active,
-               commitConnected_epochs, commitConnected_cur, commitConnected_sup, commitConnected_loops, commitConnected_tr, commitConnected_api, commitConnected_shutdown, commitConnected_gen, commitConnected_active,
-               register_epochs, register_cur, register_sup, register_loops, register_tr, register_api, register_shutdown, register_gen, register_active,
-               Option.map_eq_some_iff, Option.map_eq_none_iff] at *)
-             grind [Pub, CurDone, AllPubDone, NoLive, NotSpawning, NotReacting, SupFresh, apiShut, apiEpoch, supPcEpoch, loopPcEpoch, loopArmed, supSt, phaseOf, apiOpenish, closingPc]))
-
-set_option maxHeartbeats 1000000 in
-theorem inv2_openEnter (c c' : Cfg) (m : Mode) (h : Inv c) (h2 : Inv2 c) (hs : step? c (.openEnter m) = some c') : Inv2 c' := by
-  step_cases hs <;> inv2_frame h2 <;> inv2_fin h h2
-
-set_option maxHeartbeats 1000000 in
-theorem inv2_openArm (c c' : Cfg)  (h : Inv c) (h2 : Inv2 c) (hs : step? c .openArm = some c') : Inv2 c' := by
-  step_cases hs <;> inv2_frame h2 <;> inv2_fin h h2
-
-set_option maxHeartbeats 1000000 in
-theorem inv2_openStartOk (c c' : Cfg)  (h : Inv c) (h2 : Inv2 c) (hs : step? c .openStartOk = some c') : Inv2 c' := by
-  step_cases hs <;> inv2_frame h2 <;> inv2_fin h h2
-
-set_option maxHeartbeats 1000000 in
-theorem inv2_openStartFail (c c' : Cfg)  (h : Inv c) (h2 : Inv2 c) (hs : step? c .openStartFail = some c') : Inv2 c' := by
-  step_cases hs <;> inv2_frame h2 <;> inv2_fin h h2
-
-set_option maxHeartbeats 1000000 in
-theorem inv2_openColdDone (c c' : Cfg)  (h : Inv c) (h2 : Inv2 c) (hs : step? c .openColdDone = some c') : Inv2 c' := by
-  step_cases hs <;> inv2_frame h2 <;> inv2_fin h h2
-
-set_option maxHeartbeats 1000000 in
-theorem inv2_openRollbackEpoch (c c' : Cfg)  (h : Inv c) (h2 : Inv2 c) (hs : step? c .openRollbackEpoch = some c') : Inv2 c' := by
-  step_cases hs <;> inv2_frame h2 <;> inv2_fin h h2
-
-set_option maxHeartbeats 1000000 in
-theorem inv2_openRollbackDone (c c' : Cfg)  (h : Inv c) (h2 : Inv2 c) (hs : step? c .openRollbackDone = some c') : Inv2 c' := by
-  step_cases hs <;> inv2_frame h2 <;> inv2_fin h h2
-
-set_option maxHeartbeats 1000000 in
-theorem inv2_openWaitRet (c c' : Cfg) (r : WaitRes) (h : Inv c) (h2 : Inv2 c) (hs : step? c (.openWaitRet r) = some c') : Inv2 c' := by
-  step_cases hs <;> inv2_frame h2 <;> inv2_fin h h2
-
-set_option maxHeartbeats 1000000 in
-theorem inv2_closeEnter (c c' : Cfg)  (h : Inv c) (h2 : Inv2 c) (hs : step? c .closeEnter = some c') : Inv2 c' := by
-  step_cases hs <;> inv2_frame h2 <;> inv2_fin h h2
-
-set_option maxHeartbeats 1000000 in
-theorem inv2_closeRequest (c c' : Cfg)  (h : Inv c) (h2 : Inv2 c) (hs : step? c .closeRequest = some c') : Inv2 c' := by
-  step_cases hs <;> inv2_frame h2 <;> (first | (inv2_fin h h2; done) | skip)
-  · rename_i e0 hapi
-    intro e he hlive
-    simp only [Cfg.api] at he
-    have hee : e = e0 := by rcases he with he | he <;> simp_all
-    subst hee
-    have hsome : c.sup.isSome = true := by
-      cases hc : c.sup with
-      | none => have := (h.S4 hc).2.2.2.2.2; simp [hapi] at this
-      | some s => rfl
-    obtain ⟨s, hs⟩ := Option.isSome_iff_exists.1 hsome
-    obtain ⟨hcl, hq, hst⟩ := h2.P5 (by simp [hapi, apiOpenish]) s hs
-    have hpc : s.pc ≠ .exited := fun hp => by have := h2.P2 s hs hp; simp [hst] at this
-    refine ⟨{ s with closeEpoch := some e, queue := s.queue ++ [.close] }, ?_, rfl, hst, Or.inr ⟨hcl, by simp⟩⟩
-    simp [inject, setSup, hs, hpc]
-
-set_option maxHeartbeats 1000000 in
-theorem inv2_closeEpochDone (c c' : Cfg)  (h : Inv c) (h2 : Inv2 c) (hs : step? c .closeEpochDone = some c') : Inv2 c' := by
-  step_cases hs <;> inv2_frame h2 <;> inv2_fin h h2
-
-set_option maxHeartbeats 1000000 in
-theorem inv2_closeSupDone (c c' : Cfg)  (h : Inv c) (h2 : Inv2 c) (hs : step? c .closeSupDone = some c') : Inv2 c' := by
-  step_cases hs <;> inv2_frame h2 <;> inv2_fin h h2
-
-set_option maxHeartbeats 1000000 in
-theorem inv2_closeLoopsDone (c c' : Cfg)  (h : Inv c) (h2 : Inv2 c) (hs : step? c .closeLoopsDone = some c') : Inv2 c' := by
-  step_cases hs <;> inv2_frame h2 <;> inv2_fin h h2
-
-set_option maxHeartbeats 1000000 in
-theorem inv2_supStep (c c' : Cfg)  (h : Inv c) (h2 : Inv2 c) (hs : step? c .supStep = some c') : Inv2 c' := by
-  step_cases hs <;> inv2_frame h2 <;> inv2_fin h h2
-
-set_option maxHeartbeats 1000000 in
-theorem inv2_reactCheck (c c' : Cfg)  (h : Inv c) (h2 : Inv2 c) (hs : step? c .reactCheck = some c') : Inv2 c' := by
-  step_cases hs <;> inv2_frame h2 <;> inv2_fin h h2
-
-set_option maxHeartbeats 1000000 in
-theorem inv2_reactSpawn (c c' : Cfg)  (h : Inv c) (h2 : Inv2 c) (hs : step? c .reactSpawn = some c') : Inv2 c' := by
-  step_cases hs <;> inv2_frame h2 <;> (first | (inv2_fin h h2; done) | skip)
-  · rename_i _ s hs _ e closing hpc
-    intro i l hl
-    simp only [Pub] at *
-    by_cases hi : i < c.loops.length
-    · rw [List.getElem?_append_left hi] at hl
-      exact h2.Q i l hl
-    · have : i = c.loops.length := by
-        have := (List.getElem?_eq_some_iff.1 hl).1
-        simp at this; omega
-      subst this
-      simp at hl
-      subst hl
-      exact h.R3a s e hs (by simp [hpc, supPcEpoch])
-  · rename_i _ s hs _ e closing hpc
-    intro e' he' hlive
-    obtain ⟨s', hs', hce, hst, hcl⟩ := h2.P e' he' hlive
-    rw [hs] at hs'; cases hs'
-    refine ⟨_, rfl, hce, hst, ?_⟩
-    rcases hcl with hcl | hcl
-    · left; cases closing <;> simp_all [closingPc]
-    · right; exact hcl
-
-set_option maxHeartbeats 1000000 in
-theorem inv2_reactTeardown (c c' : Cfg)  (h : Inv c) (h2 : Inv2 c) (hs : step? c .reactTeardown = some c') : Inv2 c' := by
-  step_cases hs <;> inv2_frame h2 <;> inv2_fin h h2
-
-set_option maxHeartbeats 1000000 in
-theorem inv2_closeTeardown (c c' : Cfg)  (h : Inv c) (h2 : Inv2 c) (hs : step? c .closeTeardown = some c') : Inv2 c' := by
-  step_cases hs <;> inv2_frame h2 <;> inv2_fin h h2
-
-set_option maxHeartbeats 1000000 in
-theorem inv2_supExit (c c' : Cfg)  (h : Inv c) (h2 : Inv2 c) (hs : step? c .supExit = some c') : Inv2 c' := by
-  step_cases hs <;> inv2_frame h2 <;> inv2_fin h h2
-
-set_option maxHeartbeats 1000000 in
-theorem inv2_joinSeal (c c' : Cfg) (e : Nat) (h : Inv c) (h2 : Inv2 c) (hs : step? c (.joinSeal e) = some c') : Inv2 c' := by
-  step_cases hs <;> inv2_frame h2 <;> inv2_fin h h2
-
-set_option maxHeartbeats 1000000 in
-theorem inv2_joinStop (c c' : Cfg) (e : Nat) (h : Inv c) (h2 : Inv2 c) (hs : step? c (.joinStop e) = some c') : Inv2 c' := by
-  step_cases hs <;> inv2_frame h2 <;> inv2_fin h h2
-
-set_option maxHeartbeats 1000000 in
-theorem inv2_joinDone (c c' : Cfg) (e : Nat) (h : Inv c) (h2 : Inv2 c) (hs : step? c (.joinDone e) = some c') : Inv2 c' := by
-  step_cases hs <;> inv2_frame h2 <;> inv2_fin h h2
-
-set_option maxHeartbeats 1000000 in
-theorem inv2_loopWake (c c' : Cfg) (i : Nat) (h : Inv c) (h2 : Inv2 c) (hs : step? c (.loopWake i) = some c') : Inv2 c' := by
-  step_cases hs <;> inv2_frame h2 <;> inv2_fin h h2
-
-set_option maxHeartbeats 1000000 in
-theorem inv2_loopSleep (c c' : Cfg) (i : Nat) (h : Inv c) (h2 : Inv2 c) (hs : step? c (.loopSleep i) = some c') : Inv2 c' := by
-  step_cases hs <;> inv2_frame h2 <;> inv2_fin h h2
-
-set_option maxHeartbeats 1000000 in
-theorem inv2_loopFence (c c' : Cfg) (i : Nat) (h : Inv c) (h2 : Inv2 c) (hs : step? c (.loopFence i) = some c') : Inv2 c' := by
-  step_cases hs <;> inv2_frame h2 <;> inv2_fin h h2
-
-set_option maxHeartbeats 1000000 in
-theorem inv2_loopPublish (c c' : Cfg) (i : Nat) (h : Inv c) (h2 : Inv2 c) (hs : step? c (.loopPublish i) = some c') : Inv2 c' := by
-  step_cases hs <;> inv2_frame h2 <;> inv2_fin h h2
-
-set_option maxHeartbeats 1000000 in
-theorem inv2_loopStartOk (c c' : Cfg) (i : Nat) (h : Inv c) (h2 : Inv2 c) (hs : step? c (.loopStartOk i) = some c') : Inv2 c' := by
-  step_cases hs <;> inv2_frame h2 <;> inv2_fin h h2
-
-set_option maxHeartbeats 1000000 in
-theorem inv2_loopStartFail (c c' : Cfg) (i : Nat) (h : Inv c) (h2 : Inv2 c) (hs : step? c (.loopStartFail i) = some c') : Inv2 c' := by
-  step_cases hs <;> inv2_frame h2 <;> inv2_fin h h2
-
-set_option maxHeartbeats 1000000 in
-theorem inv2_loopFailDone (c c' : Cfg) (i : Nat) (h : Inv c) (h2 : Inv2 c) (hs : step? c (.loopFailDone i) = some c') : Inv2 c' := by
-  step_cases hs <;> inv2_frame h2 <;> inv2_fin h h2
-
-set_option maxHeartbeats 1000000 in
-theorem inv2_envAccept (c c' : Cfg)  (h : Inv c) (h2 : Inv2 c) (hs : step? c .envAccept = some c') : Inv2 c' := by
-  step_cases hs <;> inv2_frame h2 <;> inv2_fin h h2
-
-set_option maxHeartbeats 1000000 in
-theorem inv2_envSelected (c c' : Cfg)  (h : Inv c) (h2 : Inv2 c) (hs : step? c .envSelected = some c') : Inv2 c' := by
-  step_cases hs <;> inv2_frame h2 <;> inv2_fin h h2
-
-set_option maxHeartbeats 1000000 in
-theorem inv2_envSelectLost (c c' : Cfg)  (h : Inv c) (h2 : Inv2 c) (hs : step? c .envSelectLost = some c') : Inv2 c' := by
-  step_cases hs <;> inv2_frame h2 <;> inv2_fin h h2
-
-set_option maxHeartbeats 1000000 in
-theorem inv2_envDown (c c' : Cfg)  (h : Inv c) (h2 : Inv2 c) (hs : step? c .envDown = some c') : Inv2 c' := by
-  step_cases hs <;> inv2_frame h2 <;> inv2_fin h h2
-
-set_option maxHeartbeats 1000000 in
-theorem inv2_envT7 (c c' : Cfg)  (h : Inv c) (h2 : Inv2 c) (hs : step? c .envT7 = some c') : Inv2 c' := by
-  step_cases hs <;> inv2_frame h2 <;> inv2_fin h h2
-
-
-theorem inv2_step? (c c' : Cfg) (a : Act) (h : Inv c) (h2 : Inv2 c) (hs : step? c a = some c') : Inv2 c' := by
-  cases a with
-  | openEnter m => exact inv2_openEnter c c' m h h2 hs
-  | openArm => exact inv2_openArm c c' h h2 hs
-  | openStartOk => exact inv2_openStartOk c c' h h2 hs
-  | openStartFail => exact inv2_openStartFail c c' h h2 hs
-  | openColdDone => exact inv2_openColdDone c c' h h2 hs
-  | openRollbackEpoch => exact inv2_openRollbackEpoch c c' h h2 hs
-  | openRollbackDone => exact inv2_openRollbackDone c c' h h2 hs
-  | openWaitRet r => exact inv2_openWaitRet c c' r h h2 hs
-  | closeEnter => exact inv2_closeEnter c c' h h2 hs
-  | closeRequest => exact inv2_closeRequest c c' h h2 hs
-  | closeEpochDone => exact inv2_closeEpochDone c c' h h2 hs
-  | closeSupDone => exact inv2_closeSupDone c c' h h2 hs
-  | closeLoopsDone => exact inv2_closeLoopsDone c c' h h2 hs
-  | supStep => exact inv2_supStep c c' h h2 hs
-  | reactCheck => exact inv2_reactCheck c c' h h2 hs
-  | reactSpawn => exact inv2_reactSpawn c c' h h2 hs
-  | reactTeardown => exact inv2_reactTeardown c c' h h2 hs
-  | closeTeardown => exact inv2_closeTeardown c c' h h2 hs
-  | supExit => exact inv2_supExit c c' h h2 hs
-  | joinSeal e => exact inv2_joinSeal c c' e h h2 hs
-  | joinStop e => exact inv2_joinStop c c' e h h2 hs
-  | joinDone e => exact inv2_joinDone c c' e h h2 hs
-  | loopWake i => exact inv2_loopWake c c' i h h2 hs
-  | loopSleep i => exact inv2_loopSleep c c' i h h2 hs
-  | loopFence i => exact inv2_loopFence c c' i h h2 hs
-  | loopPublish i => exact inv2_loopPublish c c' i h h2 hs
-  | loopStartOk i => exact inv2_loopStartOk c c' i h h2 hs
-  | loopStartFail i => exact inv2_loopStartFail c c' i h h2 hs
-  | loopFailDone i => exact inv2_loopFailDone c c' i h h2 hs
-  | envAccept => exact inv2_envAccept c c' h h2 hs
-  | envSelected => exact inv2_envSelected c c' h h2 hs
-  | envSelectLost => exact inv2_envSelectLost c c' h h2 hs
-  | envDown => exact inv2_envDown c c' h h2 hs
-  | envT7 => exact inv2_envT7 c c' h h2 hs
-
-/-- Both invariants hold after every interleaving. -/
-theorem inv12_run (c : Cfg) (as : List Act) (h : Inv c) (h2 : Inv2 c) : Inv (run c as) ∧ Inv2 (run c as) := by
-  induction as generalizing c with
-  | nil => exact ⟨h, h2⟩
-  | cons a as ih =>
-    show Inv (run (step c a) as) ∧ Inv2 (run (step c a) as)
-    apply ih
-    · exact inv_step c a h
-    · unfold step
-      cases hs : step? c a with
-      | none => exact h2
-      | some c' => exact inv2_step? c c' a h h2 hs
-
-/-- Actions that are the library's own progress while a Close / rollback is in flight: everything
-    except entering Open/Close, the Open-path dial, and peer / transport-goroutine events. A stale loop's
-    pending dial is counted as returning (`loopStartFail`): its generation ctx is cancelled by then. -/
-def isLibAct : Act → Bool
-  | .openEnter _ | .closeEnter | .openStartOk | .openStartFail | .openWaitRet _ | .loopStartOk _
-  | .envAccept | .envSelected | .envSelectLost | .envDown | .envT7 => false
-  | _ => true
-
-/-- api positions of a Close (or a rolled-back Open) that has passed its entry and not yet returned -/
-def closingApi : ApiPc → Bool
-  | .closeReq _ | .closeWaitEpoch _ | .closeJoinSup | .closeJoinLoops | .openRollbackWait _ | .openRollbackSup => true
-  | _ => false
-
-theorem phase_done_of_pub (c : Cfg) (h : Inv c) (hcd : CurDone c) (e : Nat) (hp : Pub c e) : isDone c e = true := by
-  obtain ⟨ep, hep, hpub⟩ := hp
-  have := allDone_of_curDone c h hcd e ep hep hpub
-  simp [isDone, phaseOf, hep, this]
-
-/-- the supervisor's next step is enabled whenever it is mid-reaction -/
-theorem sup_reaction_enabled (c : Cfg) (s : Sup) (hs : c.sup = some s)
-    (hpc : s.pc ≠ .idle) (hex : s.pc ≠ .exited) :
-    ∃ a, isLibAct a = true ∧ (step? c a).isSome = true := by
-  cases hp : s.pc with
-  | idle => exact absurd hp hpc
-  | exited => exact absurd hp hex
-  | reactCheck b => exact ⟨.reactCheck, rfl, by simp [step?, hs, hp]⟩
-  | reactSpawn e b => exact ⟨.reactSpawn, rfl, by simp [step?, hs, hp]⟩
-  | reactTeardown e b => exact ⟨.reactTeardown, rfl, by simp [step?, hs, hp]⟩
-  | closeTeardown => exact ⟨.closeTeardown, rfl, by simp [step?, hs, hp]⟩
-
-theorem supStep_enabled (c : Cfg) (s : Sup) (hs : c.sup = some s) (hpc : s.pc = .idle) (ev : Ev) (q : List Ev)
-    (hq : s.queue = ev :: q) : (step? c .supStep).isSome = true := by
-  simp only [step?, hs, hpc, hq]
-  cases ev <;> simp <;> (repeat' split) <;> simp
-
-/-- waiting on epoch `e` with the supervisor obliged to tear it down: something can move -/
-theorem wait_epoch_progress (c : Cfg) (h : Inv c) (h2 : Inv2 c) (e : Nat)
-    (hapi : c.api = .closeWaitEpoch e ∨ c.api = .openRollbackWait e) :
-    ∃ a, isLibAct a = true ∧ (step? c a).isSome = true := by
-  rcases phase_cases (phaseOf c e) with hph | hph | hph | hph | hph
-  · obtain ⟨s, hs, _, hst, hcl⟩ := h2.P e hapi hph
-    have hex : s.pc ≠ .exited := fun hp => by have := h2.P2 s hs hp; simp [hst] at this
-    by_cases hidle : s.pc = .idle
-    · rcases hcl with hcl | ⟨_, hin⟩
-      · simp [hidle, closingPc] at hcl
-      · cases hq : s.queue with
-        | nil => simp [hq] at hin
-        | cons ev q => exact ⟨.supStep, rfl, supStep_enabled c s hs hidle ev q hq⟩
-    · exact sup_reaction_enabled c s hs hidle hex
-  · exact ⟨.joinSeal e, rfl, by simp [step?, hph]⟩
-  · exact ⟨.joinStop e, rfl, by simp [step?, hph]⟩
-  · exact ⟨.joinDone e, rfl, by simp [step?, hph]⟩
-  · rcases hapi with hapi | hapi
-    · exact ⟨.closeEpochDone, rfl, by simp [step?, hapi, isDone, hph]⟩
-    · exact ⟨.openRollbackEpoch, rfl, by simp [step?, hapi, isDone, hph]⟩
-
-/-- waiting for the supervisor to exit (`supWg.Wait`): something can move -/
-theorem wait_sup_progress (c : Cfg) (h : Inv c) (h2 : Inv2 c)
-    (hapi : c.api = .closeJoinSup ∨ c.api = .openRollbackSup) :
-    ∃ a, isLibAct a = true ∧ (step? c a).isSome = true := by
-  have hsome : ∃ s, c.sup = some s := by
-    cases hc : c.sup with
-    | none => have := (h.S4 hc).2.2.2.2.2; rcases hapi with hapi | hapi <;> simp [hapi] at this
-    | some s => exact ⟨s, rfl⟩
-  obtain ⟨s, hs⟩ := hsome
-  have hst := h2.P3 hapi s hs
-  by_cases hex : s.pc = .exited
-  · rcases hapi with hapi | hapi
-    · exact ⟨.closeSupDone, rfl, by simp [step?, hapi, hs, hex]⟩
-    · exact ⟨.openRollbackDone, rfl, by simp [step?, hapi, hs, hex]⟩
-  · by_cases hidle : s.pc = .idle
-    · exact ⟨.supExit, rfl, by simp [step?, hs, hidle, hst]⟩
-    · exact sup_reaction_enabled c s hs hidle hex
-
-/-- waiting for the reconnect loops to exit (`connectLoopWg.Wait`): something can move -/
-theorem wait_loops_progress (c : Cfg) (h : Inv c) (h2 : Inv2 c) (hapi : c.api = .closeJoinLoops) :
-    ∃ a, isLibAct a = true ∧ (step? c a).isSome = true := by
-  by_cases hl : loopsExited c = true
-  · exact ⟨.closeLoopsDone, rfl, by simp [step?, hapi, hl]⟩
-  · have hnl : ¬ NoLive c := fun hn => hl ((loopsExited_iff c).2 hn)
-    unfold NoLive at hnl
-    obtain ⟨i, hi⟩ := Classical.not_forall.1 hnl
-    obtain ⟨l, hl2⟩ := Classical.not_forall.1 hi
-    have hil : c.loops[i]? = some l := Classical.byContradiction fun hn => hl2 (fun hh => absurd hh hn)
-    have hlive : l.pc ≠ .exited := fun hp => hl2 (fun _ => hp)
-    have hcd := (h.S2b hapi).1
-    cases hp : l.pc with
-    | exited => exact absurd hp hlive
-    | waitPrev =>
-      have := phase_done_of_pub c h hcd l.prev (h2.Q i l hil)
-      exact ⟨.loopWake i, rfl, by simp [step?, hil, hp, this]⟩
-    | sleep => exact ⟨.loopSleep i, rfl, by simp [step?, hil, hp]⟩
-    | fence => exact ⟨.loopFence i, rfl, by simp [step?, hil, hp]; split <;> simp⟩
-    | publish e => exact ⟨.loopPublish i, rfl, by simp [step?, hil, hp]; split <;> simp⟩
-    | start e => exact ⟨.loopStartFail i, rfl, by simp [step?, hil, hp]⟩
-    | failWait e =>
-      have := phase_done_of_pub c h hcd e (h.R4a i l e hil (by simp [hp, loopPcEpoch]))
-      exact ⟨.loopFailDone i, rfl, by simp [step?, hil, hp, this]⟩
-
-/-- **No deadlock in Close.** In every configuration satisfying the invariants in which a Close (or a
-    failed Open's rollback) is between its entry and its return, some library action is enabled. -/
-theorem close_never_stuck_inv (c : Cfg) (h : Inv c) (h2 : Inv2 c) (hc : closingApi c.api = true) :
-    ∃ a, isLibAct a = true ∧ (step? c a).isSome = true := by
-  cases hapi : c.api with
-  | closeReq e => exact ⟨.closeRequest, rfl, by simp [step?, hapi]⟩
-  | closeWaitEpoch e => exact wait_epoch_progress c h h2 e (Or.inl hapi)
-  | openRollbackWait e => exact wait_epoch_progress c h h2 e (Or.inr hapi)
-  | closeJoinSup => exact wait_sup_progress c h h2 (Or.inl hapi)
-  | openRollbackSup => exact wait_sup_progress c h h2 (Or.inr hapi)
-  | closeJoinLoops => exact wait_loops_progress c h h2 hapi
-  | idle => simp [hapi, closingApi] at hc
-  | openJoin m => simp [hapi, closingApi] at hc
-  | openStart m e => simp [hapi, closingApi] at hc
-  | openColdWait e => simp [hapi, closingApi] at hc
-  | openWaitSel e => simp [hapi, closingApi] at hc
-
 
 end GoSecs.Lifecycle
